@@ -7,6 +7,36 @@ use std::io::{Read, Write};
 
 pub type ET<N> = (N, N, EVal);
 
+/// Does the flavour's `Edge` have a total order? Decided per flavour at compile time by
+/// autoref specialisation, so that a flavour WITHOUT the impls still builds and simply reports
+/// "unordered" (which then differs from its twin at run time instead of breaking the build).
+pub struct OrdProbe<'a, T>(pub &'a [T]);
+pub trait ViaOrd {
+    fn order_report(&self) -> (String, Option<Vec<usize>>);
+}
+pub trait ViaNoOrd {
+    fn order_report(&self) -> (String, Option<Vec<usize>>);
+}
+impl<T: Ord> ViaOrd for &OrdProbe<'_, T> {
+    fn order_report(&self) -> (String, Option<Vec<usize>>) {
+        let s = self.0;
+        let mut idx: Vec<usize> = (0..s.len()).collect();
+        idx.sort_by(|i, j| s[*i].cmp(&s[*j]));
+        let pair = if s.len() >= 2 {
+            let (a, b) = (&s[0], &s[1]);
+            format!("{:?} {:?} {} {} max_is_second={}", a.cmp(b), a.partial_cmp(b), a < b, a <= b, std::ptr::eq(std::cmp::max(a, b), b))
+        } else {
+            String::new()
+        };
+        (pair, Some(idx))
+    }
+}
+impl<T> ViaNoOrd for OrdProbe<'_, T> {
+    fn order_report(&self) -> (String, Option<Vec<usize>>) {
+        ("edges of this flavour have no total order".to_string(), None)
+    }
+}
+
 pub enum SearchOut<N> {
     Node(Option<N>),
     Path(Option<Vec<ET<N>>>),
@@ -244,15 +274,23 @@ macro_rules! common_node_items {
             ea == eb
         }
         fn edge_cmp(a: &ET<Self::Node>, b: &ET<Self::Node>) -> String {
-            let ea = gdsl::$m::Edge(a.0.clone(), a.1.clone(), a.2.clone());
-            let eb = gdsl::$m::Edge(b.0.clone(), b.1.clone(), b.2.clone());
-            format!("{:?} {:?} {} {} {}", ea.cmp(&eb), ea.partial_cmp(&eb), ea < eb, ea <= eb, ea.clone().max(eb.clone()).value().0)
+            #[allow(unused_imports)]
+            use crate::flavour::{ViaNoOrd, ViaOrd};
+            let es = [
+                gdsl::$m::Edge(a.0.clone(), a.1.clone(), a.2.clone()),
+                gdsl::$m::Edge(b.0.clone(), b.1.clone(), b.2.clone()),
+            ];
+            (&&crate::flavour::OrdProbe(&es[..])).order_report().0
         }
         fn edge_sort(v: &[ET<Self::Node>]) -> Vec<(usize, usize, u64)> {
-            let mut es: Vec<gdsl::$m::Edge<usize, NVal, EVal>> =
+            #[allow(unused_imports)]
+            use crate::flavour::{ViaNoOrd, ViaOrd};
+            let es: Vec<gdsl::$m::Edge<usize, NVal, EVal>> =
                 v.iter().map(|a| gdsl::$m::Edge(a.0.clone(), a.1.clone(), a.2.clone())).collect();
-            es.sort();
-            es.iter().map(|e| (*e.0.key(), *e.1.key(), (e.2).0)).collect()
+            match (&&crate::flavour::OrdProbe(&es[..])).order_report().1 {
+                Some(idx) => idx.iter().map(|i| (*es[*i].0.key(), *es[*i].1.key(), (es[*i].2).0)).collect(),
+                None => Vec::new(),
+            }
         }
         fn edge_reverse(a: &ET<Self::Node>) -> (usize, usize, u64) {
             let e = gdsl::$m::Edge(a.0.clone(), a.1.clone(), a.2.clone());
